@@ -195,6 +195,25 @@ theorem swizzle_all_shapes {β : Type} (f : α → α → α → β) (x y z : α
     swizzle3 f s0 s1 s2 x y z = some (f (pick s0 x y z) (pick s1 x y z) (pick s2 x y z)) := by
   simp [swizzle3, sel3_lt, h0, h1, h2]
 
+/-- the index picked by an outer shape out of the tuple an inner shape picks: `pick` composes by index composition -/
+theorem pick_pick (i o0 o1 o2 : Nat) (x y z : α) (hi : i < 3) :
+    pick i (pick o0 x y z) (pick o1 x y z) (pick o2 x y z) = pick (pick i o0 o1 o2) x y z := by
+  have : i = 0 ∨ i = 1 ∨ i = 2 := by omega
+  rcases this with h | h | h <;> subst h <;> simp [pick]
+
+/-- **nested swizzles**: a swizzle (inner shape `i`) wrapped in a swizzle (outer shape `o`) hands the innermost function
+`x[o[i[k]]]` — the composition of the index maps in that order (the seeded "collapse" composed them the other way round) -/
+theorem swizzle_nested {β : Type} (f : α → α → α → β) (x y z : α) (i0 i1 i2 o0 o1 o2 : Nat)
+    (hi0 : i0 < 3) (hi1 : i1 < 3) (hi2 : i2 < 3) (ho0 : o0 < 3) (ho1 : o1 < 3) (ho2 : o2 < 3) :
+    swizzle3 (fun a b c => (swizzle3 f i0 i1 i2 a b c)) o0 o1 o2 x y z
+      = some (some (f (pick (pick i0 o0 o1 o2) x y z) (pick (pick i1 o0 o1 o2) x y z) (pick (pick i2 o0 o1 o2) x y z))) := by
+  rw [swizzle_all_shapes _ x y z o0 o1 o2 ho0 ho1 ho2, swizzle_all_shapes f _ _ _ i0 i1 i2 hi0 hi1 hi2,
+      pick_pick i0 o0 o1 o2 x y z hi0, pick_pick i1 o0 o1 o2 x y z hi1, pick_pick i2 o0 o1 o2 x y z hi2]
+
+/-- non-commuting shapes: inner (1,0,2) under outer (0,2,1) hands `f` the tuple (x[2], x[0], x[1]) -/
+example : (swizzle3 (fun a b c => swizzle3 (fun p q r => (p, q, r)) 1 0 2 a b c) 0 2 1 (10 : ℚ) 20 30)
+    = some (some (30, 10, 20)) := by decide +kernel
+
 theorem swizzle_bad_shape {β : Type} (f : α → α → α → β) (x y z : α) (s0 s1 s2 : Nat)
     (h : 2 < s0 ∨ 2 < s1 ∨ 2 < s2) : swizzle3 f s0 s1 s2 x y z = none := by
   unfold swizzle3
